@@ -178,6 +178,10 @@ class YowNoiseLayer(YowLayer):
         :rtype:
         """
         data = bytes(data) if type(data) is not bytes else data
+        # refuse what cannot be framed (16 byte tag included) before the cipher counter advances: a segment
+        # that is encrypted but never written desynchronises the stream for every later frame
+        if len(data) + 16 >= 16777216:
+            raise ValueError("data too large to send; length=%d" % len(data))
         self._wa_noiseprotocol.send(data)
 
     def _flush_incoming_buffer(self):
